@@ -5,6 +5,9 @@ set -e
 cd "$(dirname "$0")"
 mkdir -p _build/extract
 cd coq
+# _CoqProject is regenerated from the files present (sorted), so adding a .v file needs no edit
+{ echo "-Q . Labella"; find . -name '*.v' -not -name '.*' | sed 's|^\./||' | LC_ALL=C sort; } > _CoqProject.new
+if [ ! -f _CoqProject ] || ! cmp -s _CoqProject _CoqProject.new; then mv _CoqProject.new _CoqProject; else rm _CoqProject.new; fi
 if [ ! -f Makefile ] || [ _CoqProject -nt Makefile ]; then
   coq_makefile -f _CoqProject -o Makefile >/dev/null
 fi
